@@ -210,7 +210,9 @@ class Fn:
                             root_is_temp = bool(tds) and all((d[0] == "call") or (d[0] == "assign" and d[3]["k"] in ("binop", "cast", "unop")) for d in tds)
                         # an alias of a field path of self / a parameter, or the value of a compiler temporary
                         # (the result of checked arithmetic, of a call ...)
-                        res = bool((root_is_param and pure_fields and pl["proj"]) or (root_is_temp and pure_fields))
+                        root_is_binding = pl["local"] > self.arg_count and self.locals[pl["local"]]["user"] and not self.locals[pl["local"]]["mut"]
+                        # ... or a field of an immutable binding (`let size = eof.file_size;`)
+                        res = bool((root_is_param and pure_fields and pl["proj"]) or (root_is_temp and pure_fields) or (root_is_binding and pure_fields and pl["proj"] and rv["k"] == "use"))
                     elif rv["k"] == "use" and rv["op"].get("k") == "const":
                         res = True
         self._new_let[local] = res
